@@ -36,6 +36,7 @@ type pipeCase struct {
 	ScratchDir string
 	Repo       string // working tree of the repository (the template files are read from it)
 	Templates  bool   // also record what the output templates see of the values they are executed on
+	Repre      bool   // preprocess the definition once more (other own-weight setting) and dump the first result again
 	Reassemble bool   // after everything else: add a nodal load to a slice node through the exported API and assemble again
 	concurrent bool   // set by the concurrent command: leave process-wide settings alone
 	Restage    int    // k > 0: number a second structure made of the sliced bars but the (k-1 mod n)-th (a construction stage)
@@ -118,6 +119,7 @@ type jPipeOut struct {
 	Nodes      []jNode
 	Bars       []jBar
 	Pre        []jPre // one per StructureModel call
+	PreAfter   *jPre   // the first preprocessed structure, looked at again after the definition was preprocessed once more
 	Again      *jAgain // the system assembled a second time, after a nodal load was added to a slice node
 	Restaged   *jPre  // the structure without one bar, numbered again over the same sliced bars
 	Dropped    string // the bar left out of the restaged structure
@@ -261,7 +263,7 @@ func runPipe(c pipeCase) (out jPipeOut) {
 	if c.Repeat < 1 {
 		c.Repeat = 1
 	}
-	var pre *preprocess.Structure
+	var pre, firstPre *preprocess.Structure
 	for k := 0; k < c.Repeat; k++ {
 		var jp jPre
 		if !c.concurrent {
@@ -276,8 +278,21 @@ func runPipe(c pipeCase) (out jPipeOut) {
 		if jp.Panic != "" {
 			return
 		}
+		if k == 0 {
+			firstPre = pre
+		}
 	}
 	out.BarsAfter = dumpBars(str)
+	if c.Repre && firstPre != nil {
+		// the definition is preprocessed once more, with the other own-weight setting; what the first call returned
+		// is then looked at again
+		var jp jPre
+		guard(&jp.Panic, func() {
+			preprocess.StructureModel(str, &preprocess.PreprocessOptions{IncludeOwnWeight: !c.Weight})
+			jp = dumpPre(firstPre)
+		})
+		out.PreAfter = &jp
+	}
 
 	if c.Restage > 0 && len(pre.Elements()) > 1 {
 		var jp jPre
